@@ -1,6 +1,10 @@
 import OsuProofs.SourceTerms
+import OsuProofs.Newton
 /-
 C11 — wind inversion closes the source-term balance.
+Model: `u10FromBulkRate` = the hybrid solver (`OsuModel/Solvers.lean`) applied to the balance
+function `U10 ↦ bulk input(U10) − target − dE/dt|active` with hard bounds (0, ∞), step tolerance
+0.01 m/s, `rtol = 1`.
 -/
 namespace Osu.Props.C11
 open Osu.ST Osu.Solv
@@ -15,5 +19,54 @@ dissipation-weighted mean wave direction) -/
 theorem direction_passthrough (F : ℝ → ℝ) (bulkRate guessU10 guessDir : ℝ) :
     (u10FromBulkRate F bulkRate guessU10 guessDir).2 = guessDir := by
   simp only [u10FromBulkRate]; split <;> rfl
+
+/-- the estimate is missing or non-negative: with hard bounds (0, ∞) and a non-negative first
+guess no iterate of the solver is negative (a value of exactly 0 would need an update landing
+exactly on the bound; the oracle checks positivity of what the code returns) -/
+theorem u10_nonneg (F : ℝ → ℝ) (bulkRate guessU10 guessDir u : ℝ) (hg : 0 ≤ guessU10)
+    (h : (u10FromBulkRate F bulkRate guessU10 guessDir).1 = some u) : 0 ≤ u := by
+  simp only [u10FromBulkRate] at h
+  split at h
+  · simp only [Option.some.injEq] at h; rw [← h]
+  · exact nrLoop_nonneg F u10Cfg rfl rfl _ _ _ (nonneg_init F guessU10 hg) (inv_init F guessU10) u h
+
+/-- a returned non-zero-dissipation estimate carries the solver's certificate for the balance
+function: the last step was shorter than 0.01 m/s, and if the root was bracketed the estimate
+lies in a bracket at whose ends the balance has opposite signs -/
+theorem u10_certified (F : ℝ → ℝ) (bulkRate guessU10 guessDir u : ℝ) (hb : bulkRate ≠ 0)
+    (h : (u10FromBulkRate F bulkRate guessU10 guessDir).1 = some u) : Certified F u10Cfg u := by
+  simp only [u10FromBulkRate] at h
+  split at h
+  · rename_i hz
+    simp only [beq_iff_eq] at hz
+    exact absurd hz hb
+  · exact newtonRaphson_certified F u10Cfg rfl guessU10 u h
+
+/-- the step tolerance of the certificate is the 0.01 m/s of the property -/
+theorem u10_step_tolerance (F : ℝ → ℝ) (u : ℝ) (h : Certified F u10Cfg u) :
+    ∃ prev : ℝ, absv (u - prev) < 1 / 100 := by
+  obtain ⟨prev, _, _, _, h1, _, _⟩ := h
+  exact ⟨prev, by simpa [u10Cfg] using h1⟩
+
+/-- the rate-of-change term only counts the actively forced bins (`generation > 0`) -/
+theorem active_region_zero_of_no_generation (g : Grid ℝ) (dEdt gen : List (List ℝ))
+    (h : ∀ row ∈ gen, ∀ x ∈ row, x ≤ 0) : activeRegionDerivative g dEdt gen = 0 := by
+  simp only [activeRegionDerivative]
+  have hz : ∀ l : List ℝ, (∀ x ∈ l, x = 0) → lsum l = 0 := by
+    intro l hl
+    induction l with
+    | nil => simp [lsum]
+    | cons a l ih =>
+      simp only [lsum, hl a List.mem_cons_self, ih fun x hx => hl x (List.mem_cons_of_mem _ hx), add_zero]
+  apply hz
+  intro x hx
+  obtain ⟨rows, hrows, df, _, rfl⟩ := mem_zipWith _ _ _ _ hx
+  apply hz
+  intro y hy
+  obtain ⟨dg, hdg, dth, _, rfl⟩ := mem_zipWith _ _ _ _ hy
+  have hg := h _ (List.of_mem_zip hrows).2 _ (List.of_mem_zip hdg).2
+  simp [not_lt.2 hg]
+
+example : (u10FromBulkRate (fun x : ℝ => x - 3) 0 5 40).1 = some 0 := by simp [u10FromBulkRate]
 
 end Osu.Props.C11
